@@ -56,6 +56,52 @@ func selectorsOn(p *packages.Package, fd *ast.FuncDecl, T types.Type) map[string
 	return out
 }
 
+// selectorsOnDeep is selectorsOn over fd and the functions of the same package it
+// calls statically (bounded depth): a field applied by a helper of the action is applied.
+func selectorsOnDeep(p *packages.Package, fd *ast.FuncDecl, T types.Type, depth int) map[string]bool {
+	out := selectorsOn(p, fd, T)
+	if fd == nil || depth <= 0 {
+		return out
+	}
+	decls := map[*types.Func]*ast.FuncDecl{}
+	for _, f := range p.Syntax {
+		for _, d := range f.Decls {
+			if d2, ok := d.(*ast.FuncDecl); ok {
+				if o, ok := p.TypesInfo.Defs[d2.Name].(*types.Func); ok {
+					decls[o] = d2
+				}
+			}
+		}
+	}
+	seen := map[*ast.FuncDecl]bool{fd: true}
+	ast.Inspect(fd, func(n ast.Node) bool {
+		ce, ok := n.(*ast.CallExpr)
+		if !ok {
+			return true
+		}
+		var id *ast.Ident
+		switch f := ce.Fun.(type) {
+		case *ast.Ident:
+			id = f
+		case *ast.SelectorExpr:
+			id = f.Sel
+		}
+		if id == nil {
+			return true
+		}
+		if o, ok := p.TypesInfo.Uses[id].(*types.Func); ok {
+			if d := decls[o]; d != nil && !seen[d] {
+				seen[d] = true
+				for k := range selectorsOnDeep(p, d, T, depth-1) {
+					out[k] = true
+				}
+			}
+		}
+		return true
+	})
+	return out
+}
+
 func litKeysOfType(p *packages.Package, fd *ast.FuncDecl, T types.Type) map[string]bool {
 	out := map[string]bool{}
 	for _, cl := range litsOfType(p, fd, T) {
@@ -151,9 +197,9 @@ func c15R1(c *Ctx) {
 			continue
 		}
 		exported := litKeysOfType(p, exp, T)
-		created := selectorsOn(p, cre, T)
-		updated := selectorsOn(p, upd, T)
-		differed := selectorsOn(p, dif, T)
+		created := selectorsOnDeep(p, cre, T, 2)
+		updated := selectorsOnDeep(p, upd, T, 2)
+		differed := selectorsOnDeep(p, dif, T, 2)
 		for i := 0; i < st.NumFields(); i++ {
 			f := st.Field(i).Name()
 			key := "config." + sp.typ + "." + f
